@@ -455,6 +455,7 @@ func runC10(c *Ctx) {
 	c10DepGraphLoops(c)
 	c10ValueStoredLast(c)
 	c10ImportsAllResolved(c)
+	c01WktFallback(c, "WKT-FALLBACK")
 }
 
 // c10WktNarrow: in getModuleDepsRec an import is skipped (`continue`) only when no module provides it
